@@ -208,7 +208,14 @@ func (aux *Aux) collectMethods(meth *slip.Method, key []string, ki int, args sli
 		for _, h := range hier {
 			key[ki] = string(h)
 			if m, has := aux.methods[strings.Join(key, "|")]; has {
-				meth.Combinations = append(meth.Combinations, m.Combinations...) // should only be one
+				// Copy the combinations (should only be one) so that a
+				// defmethod or remove-method, which update them in place,
+				// does not change the effective method of a call that is
+				// already in progress in another routine.
+				for _, c := range m.Combinations {
+					cc := *c
+					meth.Combinations = append(meth.Combinations, &cc)
+				}
 			}
 		}
 	} else {
